@@ -251,6 +251,9 @@ pub struct Pcap {
     pub header: RefCell<PcapGlobalHeader>,
     #[allow(unused)]
     ts_format: PcapTsFormat,
+    /// Set by the first failed read: the position in a damaged stream is lost,
+    /// so every later read fails the same way instead of returning garbage
+    failed: RefCell<Option<(io::ErrorKind, String)>>,
 }
 
 impl fmt::Display for Pcap {
@@ -390,6 +393,7 @@ impl Pcap {
             file,
             header: RefCell::new(global_header),
             ts_format,
+            failed: RefCell::new(None),
         })
     }
 
@@ -421,6 +425,7 @@ impl Pcap {
             file,
             header: RefCell::new(global_header),
             ts_format: PcapTsFormat::MicroSeconds,
+            failed: RefCell::new(None),
         })
     }
 
@@ -430,6 +435,17 @@ impl Pcap {
 
     /// Read next packet from a pcap file
     pub fn next_packet(&self) -> io::Result<Rc<PcapPacket>> {
+        if let Some((kind, msg)) = self.failed.borrow().as_ref() {
+            return Err(io::Error::new(*kind, msg.clone()));
+        }
+        let result = self.read_packet();
+        if let Err(e) = &result {
+            *self.failed.borrow_mut() = Some((e.kind(), e.to_string()));
+        }
+        result
+    }
+
+    fn read_packet(&self) -> io::Result<Rc<PcapPacket>> {
         let mut packet_header_data = [0u8; 16]; // Size of pcap packet header
 
         match self.file.as_ref() {
